@@ -22,5 +22,6 @@ CONSTANTS
   GzIdx = {1, 2, 3, 4}
   GzFrs = {"cl", "ch"}
   GzDrops = {0}
+  GzKeeps = {}
   GzRespFrs = {"cl"}
 CHECK_DEADLOCK FALSE
